@@ -6,6 +6,7 @@ from_bytes, as_bytes) are executed limb by limb."""
 import time
 from vp import build
 from vp.lharness import *
+from vp.lharness import OffPath
 from llsym.poly import Poly, ZERO, ONE
 from llsym.ir import Unsupported
 from checks.c02 import SC, SubContract, MontMulContract, L
@@ -73,11 +74,39 @@ def ic_int_ct_eq(it, a, name):
     x = it.P(it.load(a[0], w // 8)); y = it.P(it.load(a[1], w // 8))
     return it.boolvar(Cond("cmp", "eq", x, y))
 
-def s_harness(rep, cfg, modpath, name, fn, arg_specs, goal_fn, T, out_kind="scalar", bounds="", reduce_lemma=False):
+def s_harness(rep, cfg, modpath, name, fn, arg_specs, goal_fn, T, out_kind="scalar", bounds="", reduce_lemma=False, fork=False):
+    """fork=True: data-dependent branches (variable-time code) are explored path by path (every outcome of every
+    symbolic branch condition), each path discharged separately under its path condition"""
+    if not fork:
+        return s_harness1(rep, cfg, modpath, name, fn, arg_specs, goal_fn, T, out_kind, bounds, reduce_lemma, None)
+    decisions = []
+    n = 0
+    while True:
+        n += 1
+        if n > 32: raise Unsupported("more than 32 paths")
+        used = s_harness1(rep, cfg, modpath, "%s [path %d]" % (name, n), fn, arg_specs, goal_fn, T, out_kind, bounds, reduce_lemma, decisions)
+        d = used[:]
+        while d and d[-1] == 1: d.pop()
+        if not d: break
+        d[-1] = 1; decisions = d
+
+def s_harness1(rep, cfg, modpath, name, fn, arg_specs, goal_fn, T, out_kind, bounds, reduce_lemma, decisions):
     """arg_specs: list of ('scalar'|'bytes32'|'bytes64'|('int', bits), assume_canonical)"""
     S = SC[cfg]
     def build_run(concrete=None, shadow=None):
         run = Run(module(modpath)); run.concrete = concrete; run.shadow = shadow
+        if decisions is not None and concrete is None:
+            state = dict(i=0)
+            def brancher(it, fnn, lab, c, ins):
+                i = state["i"]; state["i"] += 1
+                if i >= len(used): used.append(0)
+                v = used[i]
+                if shadow is not None:
+                    # the sampled vector must follow this path, otherwise it is not a witness for it
+                    if bool(it.shadow_cond(c)) != bool(v): raise OffPath()
+                it.ctx.assume.append(c if v else c_not(c))
+                return ins[3] if v else ins[4]
+            run.it.allow_symbolic_branch = brancher
         sc = SubContract(run, S, scope="goal" if reduce_lemma else "all"); mc = MontMulContract(run, S); ml = MulContract(run, S); sq = MulContract(run, S, square=True)
         base = S["sub"].split("(")[0]
         run.it.intercept = [(S["sub"], sc), (base + r'(14montgomery_mul|::montgomery_mul)$', mc), (base + r'(3mul|::mul)$', ml), (base + r'(6square|::square)$', sq),
@@ -125,14 +154,21 @@ def s_harness(rep, cfg, modpath, name, fn, arg_specs, goal_fn, T, out_kind="scal
             for k, c in enumerate(sc.calls): goals.append(("sub call %d precondition -l <= X-Y < l" % k, Cond("const", not c["pre_ok"])))
         roots = o + ([flag] if flag is not None else [])
         return run, goals, roots
+    used = list(decisions) if decisions is not None else []
     run, goals, roots = build_run()
     def replay(env, gname):
         r2, g2, o2 = build_run(concrete=env)
         for (n2, c2) in g2:
             if n2 == gname: return eval_concrete(r2, c2), dict(llsym_concrete_outputs=[x.cval() for x in o2])
         return False, "goal not evaluable concretely: " + gname
-    return discharge(rep, run, "%s/%s" % (cfg, name), goals, roots, cfg, fn, bounds, timeout_s=T, replay=replay, selftest=build_run,
-                     assumptions=["Scalar52/29::{sub, mul, square, montgomery_mul} summarised by the contracts established on the optimised IR (checks/c02.py)"])
+    if decisions is not None: build_run.path_forked = True
+    discharge(rep, run, "%s/%s" % (cfg, name), goals, roots, cfg, fn, bounds, timeout_s=T, replay=replay, selftest=build_run,
+              assumptions=["Scalar52/29::{sub, mul, square, montgomery_mul} summarised by the contracts established on the optimised IR (checks/c02.py)"])
+    return used
+
+
+def _unused():
+    return None
 
 def harnesses(rep, cfg, modpath, tier):
     T = 120 if tier == "quick" else 600
